@@ -105,7 +105,7 @@ const QBIG: usize = if cfg!(miri) { 120 } else { 5000 };
 impl Prop for C03 {
     fn cases(&self, tier: Tier) -> u64 {
         match tier {
-            Tier::Quick => 6000,
+            Tier::Quick => 15_000,
             Tier::Thorough => 400_000,
         }
     }
@@ -1291,7 +1291,7 @@ impl Prop for C18 {
     fn cases(&self, tier: Tier) -> u64 {
         (BODIES.len() + LIMITS.len() + 3) as u64
             + match tier {
-                Tier::Quick => 6_000,
+                Tier::Quick => 12_000,
                 Tier::Thorough => 300_000,
             }
     }
